@@ -15,11 +15,14 @@ def sh(cmd, **kw):
     return subprocess.run(cmd, shell=True, stdout=subprocess.PIPE, stderr=subprocess.STDOUT, text=True, **kw)
 try:
     demo = os.path.join(seed, "demo.cpp")
-    top = open(demo).read(3000)
+    top = open(demo).read(4000)
     san = "-fsanitize=thread" if "fsanitize=thread" in top else ("-fsanitize=address" if "fsanitize=address" in top else "")
     extra = "-I%s/c-interface %s/c-interface/cpgm.cpp" % (wt, wt) if "cpgm.h" in open(demo).read() else ""
+    omp = "" if "thread" in san else "-fopenmp"   # TSan demos are built without OpenMP (uninstrumented libgomp is noise)
+    if "-fno-access-control" in top: extra += " -fno-access-control"
+    if "-DNDEBUG" in top: extra += " -DNDEBUG"
     def build_demo(tag):
-        r = sh(f"g++ -std=gnu++17 -O1 -g -fopenmp -march=native {san} -I{wt}/include {extra} {demo} -o /tmp/seedconfirm/{name}.{tag} -lpthread")
+        r = sh(f"g++ -std=gnu++17 -O1 -g {omp} -march=native {san} -I{wt}/include {extra} {demo} -o /tmp/seedconfirm/{name}.{tag} -pthread")
         if r.returncode != 0: return None, r.stdout[-1500:]
         env = dict(os.environ, ASAN_OPTIONS="detect_leaks=0", TSAN_OPTIONS="halt_on_error=1")
         try:
@@ -40,6 +43,11 @@ try:
             res["tests"] = dict(exit=r.returncode, summary=m.group(0) if m else r.stdout[-600:])
         else:
             res["build_log"] = r.stdout[-1500:]
+    if not run_tests and os.path.exists(os.path.join(seed, "confirm.json")):
+        prev = json.load(open(os.path.join(seed, "confirm.json")))
+        for k in ("compiles", "tests"):
+            if k in prev: res[k] = prev[k]
+        run_tests = "tests" in res
     ok = res.get("demo_unchanged", [1])[0] == 0 and res.get("demo_changed", [0])[0] not in (0, None) and (not run_tests or (res.get("compiles") and res.get("tests", {}).get("exit") == 0))
     res["confirmed"] = bool(ok)
 finally:
